@@ -32,6 +32,7 @@ def parseOp (j : Json) : Except String Op := do
     match (← getOptStr j "fails") with
     | none => pure (.pollTick none)
     | some c => pure (.pollTick (some (← exnOf c)))
+  | "host_set" => pure (.hostSet (← hookOf (j.getObjValD "sys")) (← hookOf (j.getObjValD "thr")))
   | op => throw s!"unknown lifecycle op {op}"
 
 def stateJson (d : Deep) (raised : Bool) : Json :=
